@@ -18,8 +18,32 @@ def run_hex(rep, name, **kw):
     return sysm, res
 
 
+def add_scale(rep, prop, prunes=(False, True)):
+    """scale probes (mcx/scale.py): long fixed histories on one live trie, deep / wide shapes, big batches"""
+    import time
+    from ..engine import pmap
+    from ..scale import hex_scale
+    t0 = time.time()
+    total = 0
+    for prune, (viols, evals) in zip(prunes, pmap(hex_scale, [(prop, p) for p in prunes])):
+        total += evals
+        for v in viols:
+            v = dict(v)
+            v["hist"] = []
+            rep.add_violation(v, dict(system="scale", kwargs=dict(prop=prop, prune=prune)))
+    rep.add_part(name="scale probe: 222 keys (40 nested prefixes, 16-way comb 10 levels deep), one-by-one + big batches, one live object per prune mode",
+                 evaluations=total, wall_s=round(time.time() - t0, 2))
+    if rep.evaluations:  # reports that count evaluations themselves (fault enumeration / exploration levels)
+        rep.evaluations += total
+
+
 def replay_hex(doc):
     """re-run a recorded history through the system's step function; True if the same check fails again"""
+    if doc["system"].get("system") == "scale":
+        from ..scale import hex_scale
+        viols, _ = hex_scale(doc["system"]["kwargs"]["prop"], doc["system"]["kwargs"]["prune"])
+        print("re-ran the scale probe; failing checks:", sorted({v["check"] for v in viols}))
+        return doc["check"] in {v["check"] for v in viols}
     kw = dict(doc["system"]["kwargs"])
     for k in ("values", "props", "forms", "exits"):
         kw[k] = tuple(kw[k])
